@@ -392,7 +392,8 @@ func execOnce(p pipeSpec, e env, y func(string), out *[]opResult, shared *parsed
 		paths := strings.Join(pw.SeenPaths(), ",")
 		if err == nil && fs != nil {
 			yield("op:restore-between")
-			if g, gerr := decorator.NewDecoratorWithImports(token.NewFileSet(), LocalPath, &faults.Ident{Inner: e.ident}).Parse(betweenFile); gerr == nil {
+			// (decorated with a resolver of its own: the shared one may be set up to fail or crash)
+			if g, gerr := decorator.NewDecoratorWithImports(token.NewFileSet(), LocalPath, goast.WithResolver(guess.New())).Parse(betweenFile); gerr == nil {
 				fr.RestoreFile(g)
 			}
 		}
@@ -882,6 +883,9 @@ func runScheduled(run *core.Run) {
 	}
 	// ---- O3 (in schedule): repetitions of a pipeline inside a worker agree with each other
 	for i := range w.workers {
+		if refPanic[i] != nil {
+			continue // the injected crash cut this worker short, in the schedule as when alone
+		}
 		if !repsAgree(run, ws[i].res, fmt.Sprintf("worker %d", i)) {
 			return
 		}
